@@ -89,6 +89,7 @@ def run_shard(sh, cfg: Config):
     examples = int(sh.params["examples"] * sh.params.get("scale", 1.0))
     one_per = any(q.get("flags", {}).get("one_comment_per_construct") for q in (sh.quarantine or []))
     empty_let = not any(q.get("gen", {}).get("empty_let") is False for q in (sh.quarantine or []))
+    merge_pairs = not any(q.get("gen", {}).get("merge_pairs") is False for q in (sh.quarantine or []))
     injector = T.Injector(cfg.classes, blocked=make_blocked(sh.quarantine), allow_string_interp=cfg.allow_string_interp, weights=cfg.weights, allow_attrpath=cfg.allow_attrpath, one_comment_per_construct=one_per)
 
     def kinds_of(fails):
@@ -114,7 +115,7 @@ def run_shard(sh, cfg: Config):
             sh.skipped_budget += 1
             return
         sh.now(n)
-        ast, base, broken = G.program(n, include_uri=cfg.include_uri, empty_let=empty_let)
+        ast, base, broken = G.program(n, include_uri=cfg.include_uri, empty_let=empty_let, merge_pairs=merge_pairs)
         if not cst.env_ok(base):
             sh.notes["env-size-limit"] += 1
             return
